@@ -14,9 +14,9 @@ def _members_stream(rng):
     from menelaus.change_detection import ADWIN, PageHinkley, CUSUM
     from menelaus.data_drift import KdqTreeStreaming
     pool = [
-        ("ddm", lambda: DDM(n_threshold=rng_choice(rng, [3, 8]), warning_scale=1.0, drift_scale=1.5), None),
+        ("ddm", lambda: DDM(n_threshold=rng_choice(rng, [3, 8]), warning_scale=rng_choice(rng, [0.5, 1.0]), drift_scale=rng_choice(rng, [1.5, 2.5])), None),
         ("eddm", lambda: EDDM(n_threshold=3, warning_thresh=0.99, drift_thresh=0.8), None),
-        ("stepd", lambda: STEPD(window_size=4, alpha_warning=0.3, alpha_drift=0.1), None),
+        ("stepd", lambda: STEPD(window_size=4, alpha_warning=0.45, alpha_drift=rng_choice(rng, [0.1, 0.02])), None),
         ("adwin", lambda: ADWIN(delta=0.3, new_sample_thresh=2, window_size_thresh=4, subwindow_size_thresh=2), [0]),
         ("ph", lambda: PageHinkley(delta=0.01, threshold=3.0, burn_in=5), [1]),
         ("cusum", lambda: CUSUM(burn_in=6, threshold=3.0, delta=0.05), [2]),
@@ -195,8 +195,10 @@ def random_spec(rng, kind):
     names = [n for n, _, _ in (_members_stream(rng) if kind == "stream" else _members_batch(rng))]
     k = rng.randint(2, 4)
     members = rng.sample(names, k)
-    ek = rng.choice(["majority", "min", "ordered", "confirmed"])
-    el = {"kind": ek, "a": rng.randint(1, max(1, k - 1)), "c": rng.randint(0, 2) if ek == "confirmed" else rng.randint(0, 1)}
+    ek = rng.choice(["majority", "min", "ordered", "confirmed", "confirmed"])
+    el = {"kind": ek, "a": rng.randint(1, max(1, k - 1)), "c": rng.choice([0, 1, 2, 5, 10, 25]) if ek == "confirmed" else rng.randint(0, 1)}
+    if kind == "stream" and ek == "confirmed" and not set(members) & {"ddm", "eddm", "stepd"}:
+        members[0] = rng.choice(["ddm", "stepd"])          # a member that can warn again while its wait period is open
     n = rng.randint(80, 160) if kind == "stream" else rng.randint(8, 14)
     return {"seed": rng.randrange(10 ** 6), "members": members, "election": el, "frame": rng.random() < 0.5, "n": n,
             "resets": sorted(rng.sample(range(2, n), rng.randint(0, 2))), "kind": kind}
